@@ -897,10 +897,10 @@ def flip_hex(h, rng):
     return bytes(b).hex()
 
 
-def make_edit(rng, d):
+def make_edit(rng, d, kinds=None):
     """-> (component tag, edited copy) or None.  Tags name the *documented* component."""
     e = copy.deepcopy(d)
-    kind = rng.choice(["none", "ts_metadata", "ts_schema", "time_units", "L", "table_col", "table_col",
+    kind = rng.choice(kinds) if kinds else rng.choice(["none", "ts_metadata", "ts_schema", "time_units", "L", "table_col", "table_col",
                        "offset_shift", "offset_shift", "offset_shift",
                        "table_md", "table_schema", "prov_ts", "prov_rec", "ref_data", "ref_url", "ref_md",
                        "ref_schema", "index", "addrow", "ref_presence"])
@@ -1084,6 +1084,41 @@ class Equals(Family):
 
     def generate(self, rng, tier):
         n = 150 if tier == "quick" else 2000
+        # every table that has a metadata schema, empty and non-empty: pairs that differ ONLY in that schema
+        for name in TABLE_ORDER:
+            if not TABLES[name][2]:
+                continue
+            for empty in (True, False):
+                d = gen_desc(rng, maxrows=3, minrows=1)
+                if empty:
+                    t = d["tables"][name]
+                    t["n"] = 0
+                    t["cols"] = {c: "" for c in t["cols"]}
+                    t["ragged"] = {c: ["", [0]] for c in t["ragged"]}
+                    if name == "edges":
+                        d["indexes"] = None
+                e = copy.deepcopy(d)
+                e["tables"][name]["metadata_schema"] = rng.choice(SCHEMAS[3:6]) + " "
+                if e["tables"][name]["metadata_schema"] == d["tables"][name]["metadata_schema"]:
+                    e["tables"][name]["metadata_schema"] += " "
+                yield {"a": d, "b": e, "tag": "table_metadata", "clean": False}
+        # valid tree sequences: the same comparison through TreeSequence.equals / .tables.equals
+        nv, k = (30 if tier == "quick" else 300), 0
+        keep = ("none", "ts_metadata", "top", "table_metadata", "provenance", "prov_timestamp", "refseq",
+                "refseq_metadata", "index")
+        while k < nv:
+            d = valid_ts_desc(rng)
+            if k % 3 and d["tables"]["provenances"]["n"] == 0:
+                d["tables"]["provenances"] = {"n": 2, "cols": {}, "ragged": {"timestamp": ["32303231", [0, 2, 4]], "record": ["7b7d7b7d", [0, 2, 4]]}}
+            for _ in range(40):
+                ed = make_edit(rng, d, kinds=("prov_ts", "prov_ts", "prov_rec", "none", "ts_metadata", "time_units", "table_md",
+                                              "ref_data", "ref_md", "index", "ref_presence"))
+                if ed is not None and ed[0] in keep:
+                    break
+            else:
+                continue
+            k += 1
+            yield {"a": d, "b": ed[1], "tag": ed[0], "clean": False, "valid": True}
         k = 0
         while k < n:
             d = gen_desc(rng, maxrows=rng.choice([3, 4, 6]))
@@ -1117,9 +1152,20 @@ class Equals(Family):
                     ae = exc_name(e)
                 r += [eq, ae]
             rows.append(r)
+        ts_rows = None
+        if case.get("valid"):
+            try:
+                tsa, tsb = a.tree_sequence(), b.tree_sequence()
+                ts_rows = []
+                for m in range(64):
+                    o = {name: bool(m >> i & 1) for i, name in enumerate(OPTS)}
+                    ts_rows.append([tsa.equals(tsb, **o), tsa.tables.equals(tsb.tables, **o),
+                                    tsb.equals(tsa, **o), tsa.dump_tables().equals(tsb.dump_tables(), **o)])
+            except Exception as e:
+                ts_rows = "raised " + exc_name(e)
         other = a.equals("not a table collection")
         a2, b2 = build_tc(case["a"]), build_tc(case["b"])
-        return {"rows": rows, "other_type": other, "dunder": [a == b, a != b],
+        return {"rows": rows, "other_type": other, "dunder": [a == b, a != b], "ts_rows": ts_rows,
                 "reflexive": [a.equals(a2), b.equals(b2), a.equals(a.copy()), a.equals(a)]}
 
     def oracle(self, case, obs):
@@ -1137,6 +1183,16 @@ class Equals(Family):
             exp = expected_equal(case["tag"], o)
             if eq1 != exp:
                 out.append(("equals-definition:%s" % case["tag"], "equals=%s under %s, but the differing component is %s" % (eq1, on, case["tag"])))
+        tr = obs.get("ts_rows")
+        if isinstance(tr, str):
+            out.append(("adapter", "valid pair did not build tree sequences: " + tr))
+        elif tr:
+            for m, r in enumerate(tr):
+                if any(x != obs["rows"][m][0] for x in r):
+                    on = "+".join(nm[7:] for i, nm in enumerate(OPTS) if m >> i & 1) or "default"
+                    out.append(("treesequence-equals-disagrees", "under %s: TableCollection.equals=%s but [ts.equals, ts.tables.equals, "
+                                "reverse, dump_tables().equals] = %s (tag %s)" % (on, obs["rows"][m][0], r, case["tag"])))
+                    break
         if not all(obs.get("reflexive", [True])):
             out.append(("equals-not-reflexive", "a collection is not equals() to an identical one / its copy / itself: %r" % obs["reflexive"]))
         if obs["other_type"] is not False:
